@@ -17,6 +17,8 @@ LEVEL = "other"
 def run(chk):
     cfgs = ["base", "z"]
     chk.configs = cfgs
+    chk.rule("LOOP", "AddPaths_: no local is carried from one path of a call to the next (except the cursor into the shared vertex block): what a path "
+             "contributes does not depend on the paths before it")
     chk.rule("PRECISION.forwarded", "every function with a precision parameter uses it for more than validation (pow(10, .), a ClipperD constructor, another "
              "function's precision) and constructs no ClipperD with the default precision: integer scaling / translation of decimal data is honoured")
     chk.rule("WRAP.no-passthrough", "Intersect / Union / Difference / Xor / BooleanOp never hand one of their path parameters back as the result (unless known "
@@ -50,6 +52,16 @@ def run(chk):
         e3.axis_mirror_rule(db, chk, cfg)
         e3.no_single_precision(db, chk, cfg)
         e3.closing_vertex_rule(db, chk, cfg)
+        # path order: nothing written while one path of an AddSubject / AddClip call is turned into vertices is read while the next one is
+        from ..engines import e2_state as _e2
+        _eng = _e2.E2(db, chk, cfg, ["ClipperBase"])
+        _f = db.one("AddPaths_")
+        _lp = _e2.find_loops(_f, lambda l: "paths" in _e2.loop_header_text(l))
+        if len(_lp) != 1:
+            from ..extract import AnalysisBroken as _AB
+            raise _AB("path loop of AddPaths_ not found")
+        _e2.rule_loop(_eng, chk, cfg, _f, _lp[0], {"clean": {}, "dbu": {}, "allow": {}, "config": {}}, [{}], "path loop of AddPaths_",
+                      extra_allow={"L:v": "the cursor into the call's vertex block: each path takes the vertices after the ones the paths before it used"})
         from ..engines import e8_scale as _e8p
         _e8p.rule_precision_forwarded(db, chk, cfg)
         from ..engines import e8_scale as _e8
